@@ -34,11 +34,30 @@ def section_bytes(sid):
     return b'#' + sid.encode() + b':\n'
 
 
-def judge(prefix, cand):
+def empty_section_bytes(sid):
+    """A content header declaring length=0 with no content at all."""
+    return b'#' + sid.encode() + b': length=0\n'
+
+
+def judge(prefix, cand, variant=None):
     """prefix: tuple of legal ids starting with diffx (possibly empty when the
-    candidate stands first); cand: the id tried next."""
+    candidate stands first); cand: the id tried next.
+
+    variant: None | ('blank', n, crlf) -- n empty lines before the candidate
+    header | ('empty-last',) -- the last prefix section (a content section)
+    declares length=0 and has no content, which no reader may accept."""
     ns = sut.load()
-    data = b''.join(section_bytes(s) for s in prefix) + section_bytes(cand)
+
+    if variant and variant[0] == 'empty-last':
+        return judge_empty_last(prefix, cand)
+
+    gap = b''
+
+    if variant and variant[0] == 'blank':
+        gap = b'\n' * variant[1]
+
+    data = (b''.join(section_bytes(s) for s in prefix) + gap +
+            section_bytes(cand))
     recs, err = sut.read_records(data, budget=False)
     ids = [r.get('section') for r in recs]
 
@@ -72,10 +91,40 @@ def judge(prefix, cand):
     return None
 
 
+def judge_empty_last(prefix, cand):
+    ns = sut.load()
+
+    if not prefix or spec.kind_of(prefix[-1]) == 'container':
+        return None
+
+    data = (b''.join(section_bytes(s) for s in prefix[:-1]) +
+            empty_section_bytes(prefix[-1]) + section_bytes(cand))
+    recs, err = sut.read_records(data, budget=False)
+    ids = [r.get('section') for r in recs]
+
+    if err is not None and not isinstance(err, ns.DiffXParseError):
+        return 'wrong-exception:%s' % type(err).__name__, repr(err)
+
+    if spec.illegal_step(ids) is not None:
+        return ('accepted-illegal-order',
+                'after an empty %s section the reader yielded %r'
+                % (prefix[-1], ids[-3:]))
+
+    if err is None or ids != list(prefix[:-1]):
+        return ('empty-section-accepted',
+                'a %s section with length=0 and no content: records %r, '
+                'error %r' % (prefix[-1], ids[-3:], err))
+
+    return None
+
+
+BLANK_RUNS = (1, 2, 47, 48, 49, 95, 96, 97, 191, 192, 193, 300)
+
+
 def run_case(case, st):
     prefix = tuple(case['prefix'])
     cand = case['candidate']
-    res = judge(prefix, cand)
+    res = judge(prefix, cand, case.get('variant'))
     st.case(case, nontrivial=len(prefix) >= 3,
             classes=['depth-%s' % (len(prefix) if len(prefix) < 20 else '20+'),
                      'legal' if prefix and cand in
@@ -86,6 +135,7 @@ def run_case(case, st):
 
 
 DEPTH = {'quick': 12, 'thorough': 16}
+VARIANT_DEPTH = 7
 
 
 def legal_prefixes(head, depth):
@@ -129,18 +179,29 @@ def run_chunk(chunk, st):
                 # '#:' -- not even a section name
                 pass
 
-            res = judge(p, cand)
-            evals += 1
+            variants = [None]
 
-            if len(p) >= 3:
-                nontrivial += 1
+            if len(p) <= VARIANT_DEPTH and p:
+                variants += [('blank', n) for n in BLANK_RUNS]
+                variants.append(('empty-last',))
 
-                if sample is None and len(p) >= 6:
-                    sample = {'prefix': list(p), 'candidate': cand}
+            for variant in variants:
+                res = judge(p, cand, variant)
+                evals += 1
 
-            if res is not None:
-                st.violation(res[0], res[1],
-                             {'prefix': list(p), 'candidate': cand})
+                if len(p) >= 3:
+                    nontrivial += 1
+
+                    if sample is None and len(p) >= 6:
+                        sample = {'prefix': list(p), 'candidate': cand}
+
+                if res is not None:
+                    c = {'prefix': list(p), 'candidate': cand}
+
+                    if variant:
+                        c['variant'] = list(variant)
+
+                    st.violation(res[0], res[1], c)
 
     st.bulk(evals, nontrivial, sample=sample)
 
@@ -157,7 +218,15 @@ def strategy():
             p.append(draw(hs.sampled_from(spec.TABLE[p[-1]])))
 
         cand = draw(hs.sampled_from(CANDIDATES + OUT_OF_VOCAB))
-        return {'prefix': p, 'candidate': cand}
+        case = {'prefix': p, 'candidate': cand}
+        v = draw(hs.integers(0, 3))
+
+        if v == 1:
+            case['variant'] = ['blank', draw(hs.sampled_from(BLANK_RUNS))]
+        elif v == 2:
+            case['variant'] = ['empty-last']
+
+        return case
 
     return case()
 
@@ -168,7 +237,11 @@ def checks():
             'exhaustive', chunks, run_chunk, run_case=run_case,
             rule='every legal prefix (by my table) up to depth D, followed '
                  'by each of the 24 level x name ids and 8 out-of-vocabulary '
-                 'headers; also every id as the very first section; '
+                 'headers; also every id as the very first section; for '
+                 'prefixes up to depth 7 additionally with 1..300 empty '
+                 'lines before the candidate (runs around 48/96/192 bytes) '
+                 'and with the last content section declared length=0 (which '
+                 'must be rejected and must not unlock an illegal successor); '
                  'accepted iff the candidate may follow; non-trivial = '
                  'prefix depth >= 3; enumerated, hence distinct',
             bound={'quick': 'D = 12', 'thorough': 'D = 16'}),
